@@ -203,7 +203,7 @@ def vrp_invariant(state, customers):
     return errs
 
 
-def own_objective(state, customers, vehicles):
+def own_objective(state, customers, vehicles, weights=None):
     dist = 0.0
     used = 0
     tw = 0.0
@@ -239,7 +239,13 @@ def own_objective(state, customers, vehicles):
                 sync += (cu.required_vehicles - len(ts)) * 1000.0
             elif len(ts) > 1:
                 sync += max(ts) - min(ts)
-    return 1.0 * dist + 1000.0 * tw + 1000.0 * cap + 10000.0 * sync + 100000.0 * len(state.unassigned)
+    w = dict(distance_weight=1.0, vehicle_weight=0.0, tw_penalty=1000.0, capacity_penalty=1000.0, sync_penalty=10000.0)
+    w.update(weights or {})
+    return w["distance_weight"] * dist + w["vehicle_weight"] * used + w["tw_penalty"] * tw + w["capacity_penalty"] * cap + w["sync_penalty"] * sync + 100000.0 * len(state.unassigned)
+
+
+# objective weights as the caller may set them, zero included (a zero weight switches a term off)
+WEIGHTS = (dict(tw_penalty=0.0), dict(capacity_penalty=0.0, sync_penalty=0.0), dict(distance_weight=0.5, vehicle_weight=2.0, tw_penalty=10.0))
 
 
 N_VEHICLES = [2]
@@ -377,10 +383,10 @@ def _solve_chunk(params, lo, hi):
             customers, vehicles = make_instance(code)
             wit0 = {"instance_code": code}
 
-            def judge(res, tag, wit):
+            def judge(res, tag, wit, weights=None):
                 st = res.solution
                 errs = vrp_invariant(st, customers)
-                want = own_objective(st, customers, vehicles)
+                want = own_objective(st, customers, vehicles, weights)
                 if abs(want - res.objective) > 1e-6 * (1 + abs(want)):
                     errs.append(("objective_mismatch", f"objective {res.objective}, weighted sum recomputed from the returned state {want}"))
                 r["outcomes"][f"solve_vrptw:{tag}:{'ok' if not errs else errs[0][0]}"] += 1
@@ -433,6 +439,14 @@ def _solve_chunk(params, lo, hi):
                             judge(rs, f"stopped{stop_at}", dict(wit, stop_at=stop_at))
                         except Exception as ex:  # noqa: BLE001
                             r["violations"].append(viol("solve_vrptw", "raised", dict(wit, stop_at=stop_at), f"solve_vrptw(instance {code}, seed={seed}, stop at {stop_at}): {type(ex).__name__}: {ex}"))
+                    if seed == 0:
+                        for wi, wts in enumerate(WEIGHTS):
+                            try:
+                                rw = gcall(lambda: vrp.solve_vrptw(customers[1:], vehicles, max_iter=40, seed=seed, **wts), 10.0, 100_000_000)
+                                r["n"] += 1
+                                judge(rw, f"weights{wi}", dict(wit, weights=wts), wts)
+                            except Exception as ex:  # noqa: BLE001
+                                r["violations"].append(viol("solve_vrptw", "raised", dict(wit, weights=wts), f"solve_vrptw(instance {code}, seed={seed}, {wts}): {type(ex).__name__}: {ex}"))
                     if canon(res.solution) != canon(res2.solution) or res.objective != res2.objective:
                         r["violations"].append(viol("solve_vrptw", "seed_not_reproducible", wit, f"two runs with seed={seed} differ"))
             if not r["samples"]:
